@@ -1,11 +1,13 @@
 #!/bin/bash
 # usage: tools/seed_intake.sh <ID>   -- confirm agent-produced seeds in /tmp/seed-<ID>/_seed and store them under /verif/seeded
 ID=$1; ROUND=$2; SRC=/tmp/seed-$ID/_seed; WT=/tmp/wt1
+SEED_FLAGS_BASE="$SEED_FLAGS"
 export GOFLAGS= GOPROXY=off
 for n in ${SEED_ONLY:-1 2 3 4 5}; do
   [ -f $SRC/patch$n.diff ] || continue
   git -C $WT checkout -q -- . ; git -C $WT clean -fdq
   demo=$SRC/demo${n}_test.go
+  SEED_FLAGS="$SEED_FLAGS_BASE"; head -5 $demo | grep -q "TAGS: tiny" && SEED_FLAGS="$SEED_FLAGS_BASE -tags tiny"; head -5 $demo | grep -q "FLAGS: -race" && SEED_FLAGS="$SEED_FLAGS -race"; export SEED_FLAGS
   dir=$(grep -o -m1 -E '\b(ecs|generic|filter|listener)/' $demo | head -1); dir=${dir:-ecs/}
   tname=$(grep -o -m1 -E 'func Test[A-Za-z0-9_]+' $demo | sed 's/func //')
   # without the change: demo passes
